@@ -103,7 +103,15 @@ func buildSyncBin(ctx *hx.Ctx) *syncBin {
 		dir = filepath.Join("/verif", "out", "C15")
 	}
 	os.MkdirAll(dir, 0o755)
-	sb := &syncBin{path: filepath.Join(dir, "thor-synclog.test"), dir: dir}
+	// one binary per process: concurrent runs of the same check (different seeds / tiers) must not delete each other's binary
+	if old, _ := filepath.Glob(filepath.Join(dir, "thor-synclog-*.test")); old != nil {
+		for _, f := range old {
+			if st, err := os.Stat(f); err == nil && time.Since(st.ModTime()) > 30*time.Minute {
+				os.Remove(f)
+			}
+		}
+	}
+	sb := &syncBin{path: filepath.Join(dir, fmt.Sprintf("thor-synclog-%d.test", os.Getpid())), dir: dir}
 	os.Remove(sb.path)
 	t0 := time.Now()
 	cmd := exec.Command("go", "test", "-c", "-tags", "verif", "-o", sb.path, "./cmd/thor")
@@ -161,15 +169,15 @@ func (sb *syncBin) run(cases []hookCase) ([]hookResult, error) {
 // ---------------------------------------------------------------- preparing a case: the tree is built in this process
 
 type prepared struct {
-	c        *syncCase
-	hook     hookCase
-	lines    []string // oracle session
-	nAdd     int      // lines[0..nAdd] are INIT + ADD (answer "ok")
-	wantEv   string   // canonical rows of the real best chain (reference)
-	wantTr   string
-	bestNum  uint32
-	nonTriv  bool
-	res      *hookResult
+	c       *syncCase
+	hook    hookCase
+	lines   []string // oracle session
+	nAdd    int      // lines[0..nAdd] are INIT + ADD (answer "ok")
+	wantEv  string   // canonical rows of the real best chain (reference)
+	wantTr  string
+	bestNum uint32
+	nonTriv bool
+	res     *hookResult
 }
 
 func prepare(c *syncCase) (*prepared, error) {
